@@ -458,18 +458,37 @@ def o_normalize(case):
 # ----------------------------------------------------------------------------
 @st.composite
 def _mat_pair(draw):
-    m, n = draw(st.integers(1, 5)), draw(st.integers(1, 5))
+    shape_class = draw(st.sampled_from(["small", "small", "tall", "wide"]))
+    if shape_class == "small":
+        m, n = draw(st.integers(1, 5)), draw(st.integers(1, 5))
+    elif shape_class == "tall":       # strongly tall / wide matrices (fast paths keyed on the aspect ratio)
+        m, n = draw(st.integers(6, 12)), draw(st.integers(1, 3))
+    else:
+        m, n = draw(st.integers(1, 3)), draw(st.integers(6, 12))
     kind, d = draw(_values(m * n, ("int", "dyadic", "seed")))
     kind2, d2 = draw(_values(m * n, ("int", "dyadic", "seed")))
-    lowrank = draw(st.booleans())
+    lowrank = draw(st.sampled_from([False, True, "dupcol", "zerocol"]))
     return {"shape": [m, n], "d": d, "d2": d2, "scale": draw(st.sampled_from(SCALES)), "kind": kind,
-            "reg": draw(_param()), "lowrank": lowrank}
+            "reg": draw(_param()), "lowrank": lowrank, "shape_class": shape_class}
 
 
 def _mat(c, key="d"):
     a = (np.array(c[key], dtype=float) * c["scale"]).reshape(c["shape"])
-    if c.get("lowrank") and min(a.shape) >= 2:
+    lr = c.get("lowrank")
+    if lr is True and min(a.shape) >= 2:
         a = np.outer(a[:, 0], a[0, :])  # rank <= 1
+    elif lr == "dupcol" and min(a.shape) >= 2:      # rank deficient by a duplicated column / row
+        a = a.copy()
+        if a.shape[0] >= a.shape[1]:
+            a[:, -1] = a[:, 0]
+        else:
+            a[-1, :] = a[0, :]
+    elif lr == "zerocol" and min(a.shape) >= 2:
+        a = a.copy()
+        if a.shape[0] >= a.shape[1]:
+            a[:, -1] = 0
+        else:
+            a[-1, :] = 0
     return a
 
 
@@ -505,7 +524,7 @@ def o_procrustes(case):
     nuc = float(np.sum(np.linalg.svd(v, compute_uv=False)))
     tr = float(np.sum(out * v))
     check(abs(tr - nuc) <= 1e-9 * sc * max(m, n), "procrustes/attains_nuclear_norm", lambda: f"tr(Q^T M)={tr:.9e} != ||M||_*={nuc:.9e}")
-    return {"nontrivial": min(m, n) >= 2, "labels": _labels(case, [f"lowrank={case['lowrank']}"])}
+    return {"nontrivial": min(m, n) >= 2, "labels": _labels(case, [f"lowrank={case['lowrank']}", f"shape={case.get('shape_class', 'small')}"])}
 
 
 # ----------------------------------------------------------------------------
